@@ -72,11 +72,15 @@ func (n *naiveTSO) Commit(revision uint64) {
 			break
 		}
 	}
-	// in case leader transfer, need to update tso and pre tso
-	preTSO := atomic.LoadUint64(&n.dealRevision)
-	verifhook.Yield("tso.commit")
-	if preTSO < revision {
-		atomic.CompareAndSwapUint64(&n.dealRevision, preTSO, revision)
+	// in case leader transfer, need to update tso and pre tso. A concurrent commit (a follower read's
+	// late answer racing with the leader callback) may raise the allocator first: try again until the
+	// allocator is at least at this revision, otherwise the higher of the two raises is lost
+	for {
+		preTSO := atomic.LoadUint64(&n.dealRevision)
+		verifhook.Yield("tso.commit")
+		if preTSO >= revision || atomic.CompareAndSwapUint64(&n.dealRevision, preTSO, revision) {
+			break
+		}
 	}
 }
 
